@@ -112,7 +112,7 @@ def m_map_new(it, c, a): return PMap()
 
 
 def m_map_insert(it, c, a):
-    m = val(a[0]); k = pykey(a[1]); v = val(a[2])
+    m = val(a[0]); k = pykey(a[1]); v = a[2]
     if k in m.d and present(it, m.d[k][0]):
         old = m.d[k][1].get(); m.d[k] = [TRUE, ValRef(v)]; return some(old)
     m.d[k] = [TRUE, ValRef(v)]; return none()
@@ -203,7 +203,7 @@ def m_set_is_empty(it, c, a): return z3.BoolVal(len(set_live(it, val(a[0]))) == 
 # ------------------------------------------------------------------- vecs --
 
 def m_vec_new(it, c, a): return PVec()
-def m_vec_push(it, c, a): val(a[0]).items.append(val(a[1])); return None
+def m_vec_push(it, c, a): val(a[0]).items.append(a[1]); return None          # a pushed reference stays a reference
 def m_vec_pop(it, c, a):
     v = val(a[0]); return some(v.items.pop()) if v.items else none()
 def m_vec_len(it, c, a): return z3.BitVecVal(len(val(a[0]).items), 64)
@@ -219,6 +219,12 @@ def m_vec_contains(it, c, a):
     v = val(a[0]); k = val(a[1])
     return z3.Or(*[x == k for x in v.items]) if v.items else z3.BoolVal(False)
 def m_vec_reverse(it, c, a): val(a[0]).items.reverse(); return None
+def m_vec_last(it, c, a):
+    v = val(a[0]); return some(IdxRef(v, len(v.items) - 1)) if v.items else none()
+def m_vec_first(it, c, a):
+    v = val(a[0]); return some(IdxRef(v, 0)) if v.items else none()
+def m_vec_get(it, c, a):
+    v = val(a[0]); i = pykey(a[1]); return some(IdxRef(v, i)) if i < len(v.items) else none()
 def m_new_uninit(it, c, a):
     """Box::<[T; N]>::new_uninit(): Box -> Unique -> NonNull -> MaybeUninit { uninit, value: ManuallyDrop { MaybeDangling { [T; N] } } }"""
     mu = Agg("union", "MaybeUninit", [None, Agg("struct", "ManuallyDrop", [Agg("struct", "MaybeDangling", [None])])])
@@ -243,7 +249,7 @@ class IdxRef:
 
 # ----------------------------------------------------------------- deque --
 
-def m_dq_push_back(it, c, a): val(a[0]).items.append(val(a[1])); return None
+def m_dq_push_back(it, c, a): val(a[0]).items.append(a[1]); return None
 def m_dq_pop_front(it, c, a):
     v = val(a[0]); return some(v.items.pop(0)) if v.items else none()
 
@@ -253,10 +259,18 @@ def m_dq_pop_front(it, c, a):
 def m_iter_identity(it, c, a): return val(a[0])
 
 
+def range_iter(v):
+    lo, hi = (z3.simplify(x) for x in v.fields[:2])
+    if z3.is_bv_value(lo) and z3.is_bv_value(hi):
+        return PIter([z3.BitVecVal(i, lo.size()) for i in range(lo.as_long(), hi.as_long())])
+    raise Unsupported("range with symbolic bounds")
+
+
 def m_into_iter_generic(it, c, a):
     v = val(a[0])
     ref = c.startswith("<&")
     if isinstance(v, PIter): return v
+    if isinstance(v, Agg) and v.name == "Range": return range_iter(v)
     if isinstance(v, PSet): return (m_set_iter if ref else m_set_into_iter)(it, c, a)
     if isinstance(v, PMap): return (m_map_iter if ref else m_map_into_iter)(it, c, a)
     if isinstance(v, PVec): return (m_vec_iter if ref else m_vec_into_iter)(it, c, a)
@@ -265,6 +279,12 @@ def m_into_iter_generic(it, c, a):
 
 def m_next(it, c, a):
     r = val(a[0])
+    if isinstance(r, Agg) and r.name == "Range":
+        lo, hi = r.fields
+        if it.branch(z3.ULT(lo, hi)):
+            r.fields[0] = z3.simplify(lo + 1)
+            return some(lo)
+        return none()
     ok, x = r.pull(it)
     return some(x) if ok else none()
 
@@ -287,6 +307,7 @@ def m_skip(it, c, a):
 
 def m_rev(it, c, a):
     r = val(a[0])
+    if isinstance(r, Agg) and r.name == "Range": r = range_iter(r)
     if r.ops: raise Unsupported("rev after adaptors")
     rest = r.items[r.pos:]; rest.reverse(); r.items = rest; r.pos = 0; return r
 
@@ -319,12 +340,29 @@ def m_all_any(kind):
     return f
 
 
+def m_find(it, c, a):
+    r = val(a[0])
+    while True:
+        ok, x = r.pull(it)
+        if not ok: return none()
+        if truth(it, it.call_closure(a[1], [ValRef(x)])): return some(x)
+
+
+def m_position(it, c, a):
+    r = val(a[0]); i = 0
+    while True:
+        ok, x = r.pull(it)
+        if not ok: return none()
+        if truth(it, it.call_closure(a[1], [x])): return some(z3.BitVecVal(i, 64))
+        i += 1
+
+
 def m_collect(it, c, a):
     r = val(a[0]); out = []
     while True:
         ok, x = r.pull(it)
         if not ok: break
-        out.append(val(x) if not isinstance(x, Agg) else x)
+        out.append(x)              # references stay references (Vec<&T>)
     target = c.split("collect::<", 1)[1] if "collect::<" in c else c
     target = re.sub(r"^std::collections::", "", target)
     if target.startswith(("HashMap", "BTreeMap", "std::collections::HashMap", "std::collections::BTreeMap")):
@@ -410,6 +448,12 @@ MODELS = [
     (R(r"slice::<impl \[.*\]>::iter$|^Vec::<.*>::iter$"), m_vec_iter),
     (R(r"slice::<impl \[.*\]>::contains$|^VecDeque::<.*>::contains$"), m_vec_contains),
     (R(r"slice::<impl \[.*\]>::reverse$"), m_vec_reverse),
+    (R(r"slice::<impl \[.*\]>::last$|^Vec::<.*>::last$"), m_vec_last),
+    (R(r"slice::<impl \[.*\]>::first$|^Vec::<.*>::first$"), m_vec_first),
+    (R(r"slice::<impl \[.*\]>::get::<usize>$|^Vec::<.*>::get$"), m_vec_get),
+    (R(r"slice::<impl \[.*\]>::len$"), m_vec_len),
+    (R(r"slice::<impl \[.*\]>::is_empty$"), m_vec_is_empty),
+    (R(r"^<\[.*\] as (std::ops::)?Index(Mut)?<usize>>::index(_mut)?$"), m_vec_index),
     (R(r"^<Vec<.*> as Deref(Mut)?>::deref(_mut)?$"), m_iter_identity),
     (R(r"^<Vec<.*> as (std::ops::)?Index(Mut)?<usize>>::index(_mut)?$"), m_vec_index),
     (R(r"box_assume_init_into_vec_unsafe"), m_from_elem_box),
@@ -425,6 +469,8 @@ MODELS = [
     (R(r" as (DoubleEnded)?Iterator>::rev$"), m_rev),
     (R(r" as Iterator>::for_each::<"), m_for_each),
     (R(r" as Iterator>::fold::<"), m_fold),
+    (R(r" as Iterator>::find::<"), m_find),
+    (R(r" as Iterator>::position::<"), m_position),
     (R(r" as Iterator>::all::<"), m_all_any("all")),
     (R(r" as Iterator>::any::<"), m_all_any("any")),
     (R(r" as Iterator>::collect::<"), m_collect),
